@@ -18,7 +18,22 @@ func basicOf(t types.Type) *types.Basic {
 func (in *Interp) unop(fr *Frame, instr *ssa.UnOp, x Value) Value {
 	switch instr.Op {
 	case token.MUL:
-		return in.load(fr, x)
+		v := in.load(fr, x)
+		// the `*(*string)(unsafe.Pointer(&b))` idiom and its inverse: reinterpret, keeping the aliasing
+		switch vv := v.(type) {
+		case Slice:
+			if b, ok := instr.Type().Underlying().(*types.Basic); ok && b.Info()&types.IsString != 0 {
+				return Str{vv.v[:len(vv.v):len(vv.v)]}
+			}
+		case Str:
+			if _, ok := instr.Type().Underlying().(*types.Slice); ok {
+				if len(vv.b) == 0 {
+					return Slice{}
+				}
+				return Slice{vv.b[:len(vv.b):len(vv.b)]}
+			}
+		}
+		return v
 	case token.ARROW:
 		v, ok := in.chanRecv(fr, x, instr.Type(), instr.CommaOk)
 		if instr.CommaOk {
